@@ -79,6 +79,14 @@ impl Edge {
 pub fn throttle_by_window(v: &V) -> u64 {
   1 + (v.num().rem_euclid(2)) as u64
 }
+/// window (ticks) chosen by the `n`-th call (0-based) of the stateful selector
+pub fn throttle_calls_window(n: usize) -> u64 {
+  if n < 2 {
+    1
+  } else {
+    3
+  }
+}
 pub fn inc(v: V) -> V {
   V::I(v.num() + 1)
 }
@@ -147,6 +155,9 @@ pub enum Op1 {
   ThrottleTime(u64, Edge),
   /// throttle with a per-item window: odd items 2 ticks, even items 1 tick
   ThrottleBy(Edge),
+  /// throttle whose selector is stateful: the 1st and 2nd call give a 1-tick
+  /// window, every later call a 3-tick window
+  ThrottleCalls(Edge),
   BufferWithTime(u64),
   BufferWithCountAndTime(usize, u64),
   SampleInterval(u64),
@@ -364,6 +375,7 @@ impl Op1 {
         | Op1::Debounce(_)
         | Op1::ThrottleTime(..)
         | Op1::ThrottleBy(_)
+        | Op1::ThrottleCalls(_)
         | Op1::BufferWithTime(_)
         | Op1::BufferWithCountAndTime(..)
         | Op1::SampleInterval(_)
@@ -439,6 +451,7 @@ impl Op1 {
       Op1::Debounce(_) => "debounce",
       Op1::ThrottleTime(..) => "throttle_time",
       Op1::ThrottleBy(_) => "throttle",
+      Op1::ThrottleCalls(_) => "throttle(stateful selector)",
       Op1::BufferWithTime(_) => "buffer_with_time",
       Op1::BufferWithCountAndTime(..) => "buffer_with_count_and_time",
       Op1::SampleInterval(_) => "sample(interval)",
@@ -1027,6 +1040,16 @@ macro_rules! build_fns {
             Op1::ThrottleBy(edge) => {
               let $cxs = cx;
               s.throttle(|v: &V| ticks(throttle_by_window(v)), edge.get(), $sched).box_it()
+            }
+            Op1::ThrottleCalls(edge) => {
+              let $cxs = cx;
+              let calls = Arc::new(AtomicUsize::new(0));
+              s.throttle(
+                move |_: &V| ticks(throttle_calls_window(calls.fetch_add(1, Ordering::SeqCst))),
+                edge.get(),
+                $sched,
+              )
+              .box_it()
             }
             Op1::BufferWithTime(w) => {
               let $cxs = cx;
